@@ -664,3 +664,678 @@ Proof.
     rewrite Rx. exact (inv2_recv_bounce_fin mx s b r rest I1 I2 Hb Ei).
   - exact (inv2_recv_syn mx s b rest I1 I2 Hb Ei).
 Qed.
+
+(* ---------------------------------------------------------------- responses *)
+Lemma split_app {A} (m : A) : forall l1 l2 a b, l1 ++ m :: l2 = a ++ b ->
+  (exists a2, a = l1 ++ m :: a2 /\ l2 = a2 ++ b) \/ (exists b1, b = b1 ++ m :: l2 /\ l1 = a ++ b1).
+Proof.
+  induction l1 as [|z l1 IH]; intros l2 a b E.
+  - destruct a as [|w a]; simpl in E.
+    + right. exists []. auto.
+    + injection E as -> ->. left. exists a. auto.
+  - destruct a as [|w a]; simpl in E.
+    + right. exists (z :: l1). auto.
+    + injection E as -> E. destruct (IH _ _ _ E) as [(a2 & -> & ->)|(b1 & -> & ->)].
+      * left. exists a2. auto.
+      * right. exists b1. auto.
+Qed.
+
+Lemma hid_all h d : Forall (fun x => h <= snd x) d -> hid h d = map (fun x => S (snd x)) d.
+Proof.
+  induction 1; auto. rewrite hid_cons. apply Nat.leb_le in H. rewrite H. simpl. now rewrite IHForall.
+Qed.
+
+Lemma hiu_bounce h mx l : nomark l -> Forall (fun x => h <= snd x) (datas l) ->
+  sub (hiu h (bounce mx l)) (map (fun x => S (snd x)) (datas l)).
+Proof.
+  induction l as [|m l IH]; intros N F; [constructor|].
+  apply nomark_cons in N as [N1 N2]. destruct m as [i r| |]; try discriminate.
+  simpl in F. inversion F as [|? ? F1 F2]; subst. simpl in F1.
+  unfold bounce in *. simpl. rewrite hiu_app. unfold bounce1 at 1.
+  destruct (mx <=? r).
+  - simpl. apply sub_skip. auto.
+  - rewrite hiu_single. simpl. assert ((h <? S r) = true) as -> by (apply Nat.ltb_lt; lia). simpl. apply sub_keep. auto.
+Qed.
+
+Lemma bounce_data mx l i r : In (Data i r) (bounce mx l) -> exists r0, In (Data i r0) l /\ r = S r0.
+Proof.
+  intros H. apply in_bounce in H as (m0 & H0 & H1). unfold bounce1 in H1. destruct m0 as [i0 r0|r0|]; simpl in H1.
+  - destruct (mx <=? r0); [destruct H1|]. destruct H1 as [H1|[]]. injection H1 as <- <-. eauto.
+  - destruct (mx <=? r0); [destruct H1|]. destruct H1 as [H1|[]]. discriminate.
+  - destruct H1.
+Qed.
+
+Lemma inv2_set_succ mx s sc : Inv2 mx s -> Inv2 mx (set_succ s sc).
+Proof. intros I. destruct I. constructor; auto. Qed.
+
+Lemma sub_datas_pre_m l : sub (datas (pre_m l)) (datas l).
+Proof. rewrite <- (datas_split l). apply sub_app_l. Qed.
+Lemma sub_datas_post_m l : sub (datas (post_m l)) (datas l).
+Proof. rewrite <- (datas_split l). apply sub_app_r. Qed.
+
+(* a healthy worker fails: everything it holds is bounced or doomed *)
+Definition option_eq_dec (a b : option nat) : {a = b} + {a <> b}.
+Proof. decide equality. apply Nat.eq_dec. Defined.
+
+Lemma inv2_fail_healthy mx s b y : Inv1 mx s -> Inv2 mx s -> b < length (bps s) ->
+  let x := get_bp s b in
+  refusing x = false -> inq y = inq x -> pre y = [] ->
+  ((rf y = true /\ cl y = false /\ pre x <> []) \/ cl y = true) ->
+  Inv2 mx (put_bp (set_rq s (rq s ++ bounce mx (pre x))) b y).
+Proof.
+  intros I1 I2 Hb x Rx Ei Py Kind. pose proof I2 as I2'. dI2 I2'. dI1 I1.
+  set (ex := bounce mx (pre x)). set (s' := put_bp (set_rq s (rq s ++ ex)) b y).
+  set (P := datas (pre x)). set (D := datas (inq x)).
+  destruct (acc_doom_healthy x Rx) as [Ax Dx]. rewrite datas_app in Ax. fold P D in Ax.
+  assert (Npx : nomark (pre x)) by apply Hpnm.
+  assert (Ry : refusing y = true).
+  { unfold refusing. destruct Kind as [[K _]|K]; rewrite K; auto. apply orb_true_r. }
+  (* no marker is pending when the worker holds data outside its input *)
+  assert (Mk : pre x <> [] -> has_m (inq x) = false).
+  { intros Hp. destruct (has_m (inq x)) eqn:M; auto. exfalso. pose proof (Hmarked b M Rx) as Z. fold x in Z.
+    unfold seg1 in Z. rewrite datas_app in Z. apply app_eq_nil in Z as [Z _]. apply Hp. now apply datas_nomark_nil. }
+  assert (ADy : acc y = [] /\ doom y = D).
+  { destruct Kind as [(K1 & K2 & K3)|K].
+    - destruct (acc_doom_rf y Ry K2) as [A B]. rewrite A, B, Py, Ei. simpl.
+      specialize (Mk K3). apply nomark_has_m in Mk. now rewrite (post_m_nomark _ Mk), (pre_m_nomark _ Mk).
+    - destruct (acc_doom_closing y K) as [A B]. rewrite A, B, Py, Ei. auto. }
+  destruct ADy as [Ay Dy].
+  assert (Ty : tail_doomed y = true).
+  { unfold tail_doomed. rewrite Ei, Ry. destruct (has_m (inq x)) eqn:M; auto.
+    destruct Kind as [(_ & _ & K3)|K]; auto. specialize (Mk K3). congruence. }
+  assert (Tx : tail_doomed x = false).
+  { unfold tail_doomed. rewrite Rx. destruct (healthy_cl x Rx) as [-> _]. now destruct (has_m (inq x)). }
+  assert (HS0 : cur s = Some b -> hi_seq s = []).
+  { intros Ec. destruct (hi_seq s) eqn:Eh; auto. exfalso. destruct Kht as (b' & E1 & E2); [try rewrite Eh; discriminate|].
+    rewrite Ec in E1. injection E1 as <-. fold x in E2. congruence. }
+  assert (Cx : cur s = Some b -> cur_bp s = x) by (intros Ec; unfold cur_bp; now rewrite Ec).
+  assert (E0 : cur s <> Some b -> pre x = [] /\ D = []).
+  { intros N. assert (Ea : acc x = []). { destruct (acc x) eqn:Ea; auto. exfalso. apply N. apply Kacc. fold x. rewrite Ea. discriminate. }
+    rewrite Ea in Ax. symmetry in Ax. apply app_eq_nil in Ax as [A1 A2]. split; auto. now apply datas_nomark_nil. }
+  assert (Lv : noninc (map snd (P ++ D)) /\ Forall (fun z => hwm s <= snd z) (P ++ D)).
+  { destruct (option_eq_dec (cur s) (Some b)) as [Ec|N].
+    - rewrite (Cx Ec), Ax in Klvls. exact Klvls.
+    - destruct (E0 N) as [A1 A2]. unfold P. rewrite A1, A2. simpl. split; constructor. }
+  destruct Lv as [Lv1 Lv2].
+  assert (G : forall b', b' <> b -> get_bp s' b' = get_bp s b') by (intros; unfold s'; rewrite get_bp_put_other by auto; reflexivity).
+  assert (Gy : get_bp s' b = y) by (apply get_bp_put_same; exact Hb).
+  assert (Cb : cur_bp s' = if match cur s with Some c => c =? b | None => false end then y else cur_bp s).
+  { unfold s'. now rewrite cur_bp_put_rq. }
+  assert (Ceq : forall c, cur s = Some c -> (c =? b) = true -> cur s = Some b).
+  { intros c E1 E2. apply Nat.eqb_eq in E2. now rewrite <- E2. }
+  assert (Cne : match cur s with Some c => c =? b | None => false end = false -> cur s <> Some b).
+  { intros E Ec. rewrite Ec, Nat.eqb_refl in E. discriminate. }
+  assert (Hu : hi_up s' = hi_up s ++ hiu (hwm s) ex).
+  { rewrite !hi_up_eq. change (hwm s') with (hwm s). change (q s' ++ rq s') with (q s ++ rq s ++ ex). now rewrite app_assoc, hiu_app. }
+  assert (Pd : Forall (fun z => hwm s <= snd z) P /\ Forall (fun z => hwm s <= snd z) D) by (now apply Forall_app).
+  destruct Pd as [Pd1 Pd2].
+  assert (Hseq : cur s = Some b -> hi_seq s' = hiu (hwm s) ex ++ map (fun z => S (snd z)) D).
+  { intros Ec. unfold hi_seq. rewrite Hu, hi_doom_eq. change (hwm s') with (hwm s). rewrite Cb, Ec, Nat.eqb_refl, Dy.
+    pose proof (HS0 Ec) as Z. unfold hi_seq in Z. apply app_eq_nil in Z as [-> _]. simpl. now rewrite hid_all. }
+  assert (Hne : cur s <> Some b -> hi_up s' = hi_up s /\ hi_doom s' = hi_doom s).
+  { intros N. destruct (E0 N) as [A1 A2]. split.
+    - rewrite Hu. unfold ex. rewrite A1. simpl. now rewrite app_nil_r.
+    - rewrite !hi_doom_eq. change (hwm s') with (hwm s). rewrite Cb. destruct (cur s) as [c|]; auto.
+      destruct (Nat.eqb_spec c b) as [E|E]; auto. exfalso. apply N. now rewrite E. }
+  constructor.
+  - intros b'. destruct (Nat.eq_dec b' b) as [Eb|N]; [subst b'; rewrite Gy, Ay; now intros []|rewrite G by auto; apply Kacc].
+  - change (hwm s') with (hwm s). rewrite Cb. destruct (match cur s with Some c => c =? b | None => false end); auto.
+    rewrite Ay. split; constructor.
+  - destruct (option_eq_dec (cur s) (Some b)) as [Ec|N].
+    + rewrite (Hseq Ec). eapply noninc_sub.
+      * assert (Z : noninc (map (fun z => S (snd z)) (P ++ D))).
+        { rewrite <- (map_map snd S). now apply noninc_map_S. }
+        exact Z.
+      * rewrite map_app. apply sub_app; [|apply sub_refl]. apply hiu_bounce; auto.
+    + destruct (Hne N) as [H1 H2]. unfold hi_seq. now rewrite H1, H2.
+  - intros b'. change (cur s') with (cur s). change (hwm s') with (hwm s).
+    destruct (Nat.eq_dec b' b) as [Eb|N]; [subst b'; rewrite Gy, Dy|rewrite G by auto; apply Kho].
+    intros N. destruct (E0 N) as [_ ->]. constructor.
+  - change (cur s') with (cur s). intros H. destruct (option_eq_dec (cur s) (Some b)) as [Ec|N].
+    + exists b. rewrite Gy. auto.
+    + destruct (Hne N) as [H1 H2]. unfold hi_seq in H. rewrite H1, H2 in H. destruct (Kht H) as (b' & E1 & E2).
+      exists b'. split; auto. rewrite G; auto. intros ->. auto.
+  - intros H. rewrite Cb. destruct (option_eq_dec (cur s) (Some b)) as [Ec|N].
+    + rewrite Ec, Nat.eqb_refl, Ei. apply Mk. intros Z.
+      rewrite Hu in H. pose proof (HS0 Ec) as Z2. unfold hi_seq in Z2. apply app_eq_nil in Z2 as [Z2 _]. rewrite Z2 in H.
+      unfold ex in H. rewrite Z in H. now apply H.
+    + assert (match cur s with Some c => c =? b | None => false end = false) as ->.
+      { destruct (cur s) as [c|]; auto. apply Nat.eqb_neq. intros ->. now apply N. }
+      destruct (Hne N) as [H1 _]. rewrite H1 in H. auto.
+  - change (hwm s') with (hwm s). change (q s' ++ rq s') with (q s ++ rq s ++ ex). intros l1 i r l2 E Hr.
+    rewrite app_assoc in E. symmetry in E. apply split_app in E as [(a2 & E1 & E2)|(b1 & E1 & E2)].
+    + subst l2. destruct (Kcu l1 i r a2) as (c & Hc & W); [now rewrite E1|exact Hr|].
+      exists c. split; [exact Hc|]. destruct W as [W|(b' & W)]; [left; apply in_or_app; now left|].
+      right. exists b'. destruct (Nat.eq_dec b' b) as [Eb|N]; [subst b'; rewrite Gy, Ei; exact W|now rewrite G].
+    + exfalso. assert (Hi : In (Data i r) ex) by (rewrite E1; apply in_or_app; right; now left).
+      apply bounce_data in Hi as (r0 & Hi & ->). apply in_datas in Hi. fold P in Hi.
+      rewrite Forall_forall in Pd1. apply Pd1 in Hi. simpl in Hi. lia.
+  - intros b' i r. change (hwm s') with (hwm s).
+    destruct (Nat.eq_dec b' b) as [Eb|N]; [subst b'; rewrite Gy|rewrite G by auto; apply Kcd].
+    intros _ Hi Hr. exfalso. unfold seg1 in Hi. rewrite Py, Ei in Hi. simpl in Hi.
+    apply (sub_in _ _ _ (sub_datas_pre_m _)) in Hi. fold D in Hi. rewrite Forall_forall in Pd2. apply Pd2 in Hi. simpl in Hi. lia.
+  - intros b' i r. change (hwm s') with (hwm s).
+    destruct (Nat.eq_dec b' b) as [Eb|N]; [subst b'; rewrite Gy|rewrite G by auto; apply Kc2].
+    intros _ Hi. unfold seg2 in Hi. rewrite Ei in Hi.
+    apply (sub_in _ _ _ (sub_datas_post_m _)) in Hi. fold D in Hi. rewrite Forall_forall in Pd2. now apply Pd2 in Hi.
+  - intros b'. change (hwm s') with (hwm s).
+    destruct (Nat.eq_dec b' b) as [Eb|N]; [subst b'; rewrite Gy|rewrite G by auto; apply Ks1].
+    rewrite Ei. intros M. pose proof (Hmarked b M Rx) as Z. fold x in Z. unfold seg1 in *. rewrite Py, Ei. simpl.
+    rewrite datas_app in Z. apply app_eq_nil in Z as [_ ->]. constructor.
+Qed.
+
+(* a worker that refuses the partition loses its connection: what it had accepted after the marker is doomed too *)
+Lemma inv2_close_rf mx s b y : Inv1 mx s -> Inv2 mx s -> b < length (bps s) ->
+  let x := get_bp s b in
+  refusing x = true -> cl x = false -> inq y = inq x -> pre y = [] -> cl y = true ->
+  Inv2 mx (put_bp s b y).
+Proof.
+  intros I1 I2 Hb x Rx Cx Ei Py Cy. pose proof I2 as I2'. dI2 I2'. dI1 I1.
+  assert (Px : pre x = []) by (apply Hpref; exact Rx).
+  destruct (acc_doom_rf x Rx Cx) as [Ax Dx]. rewrite Px in Dx. simpl in Dx.
+  destruct (acc_doom_closing y Cy) as [Ay Dy]. rewrite Py, Ei in Dy. simpl in Dy. rewrite <- datas_split in Dy. rewrite <- Ax, <- Dx in Dy.
+  assert (Ry : refusing y = true) by now apply refusing_cl.
+  assert (S1 : seg1 y = seg1 x) by (unfold seg1; now rewrite Py, Px, Ei).
+  assert (S2 : seg2 y = seg2 x) by (unfold seg2; now rewrite Ei).
+  assert (Ty : tail_doomed y = true). { unfold tail_doomed. rewrite Cy, Ry. now destruct (has_m (inq y)). }
+  destruct (acc x) as [|a0 ar] eqn:Ea.
+  - (* nothing accepted: only the flags change *)
+    rewrite app_nil_r in Dy.
+    apply inv2_bp_shrink'; auto; fold x.
+    + rewrite Ay, Ea. constructor.
+    + rewrite Ei. auto.
+    + intros i r _. rewrite S1, Ei. apply Kcd. exact Rx.
+    + intros i r _. rewrite S2. unfold seg2. rewrite <- Ax. intros [].
+    + rewrite S1, Ei. apply Ks1.
+    + rewrite Ei. intros H Ec. specialize (Khm H). unfold cur_bp in Khm. rewrite Ec in Khm. exact Khm.
+  - (* b is the current worker and a marker is pending in its input *)
+    assert (Ec : cur s = Some b). { apply Kacc. fold x. rewrite Ea. discriminate. }
+    assert (Cxx : cur_bp s = x) by (unfold cur_bp; now rewrite Ec).
+    assert (M : has_m (inq x) = true).
+    { destruct (has_m (inq x)) eqn:M; auto. apply nomark_has_m in M. rewrite (post_m_nomark _ M) in Ax. discriminate. }
+    assert (Tx : tail_doomed x = false). { unfold tail_doomed. now rewrite M. }
+    assert (HS0 : hi_seq s = []).
+    { destruct (hi_seq s) eqn:Eh; auto. exfalso. destruct Kht as (b' & E1 & E2); [try rewrite Eh; discriminate|].
+      rewrite Ec in E1. injection E1 as <-. fold x in E2. congruence. }
+    rewrite Cxx, Ea in Klvls. destruct Klvls as [Lv1 Lv2].
+    assert (Lo : Forall (fun z => snd z < hwm s) (doom x)). { rewrite Dx. specialize (Ks1 b M). fold x in Ks1. unfold seg1 in Ks1. now rewrite Px in Ks1. }
+    set (s' := put_bp s b y).
+    assert (G : forall b', b' <> b -> get_bp s' b' = get_bp s b') by (intros; now apply get_bp_put_other).
+    assert (Gy : get_bp s' b = y) by now apply get_bp_put_same.
+    assert (Cb : cur_bp s' = y). { unfold s'. rewrite cur_bp_put by auto. now rewrite Ec, Nat.eqb_refl. }
+    assert (Hu : hi_up s' = []). { unfold hi_seq in HS0. now apply app_eq_nil in HS0 as [? _]. }
+    constructor.
+    + intros b'. destruct (Nat.eq_dec b' b) as [Eb|N]; [subst b'; rewrite Gy, Ay; now intros []|rewrite G by auto; apply Kacc].
+    + rewrite Cb, Ay. split; constructor.
+    + unfold hi_seq. rewrite Hu, hi_doom_eq, Cb, Dy, hid_app. change (hwm s') with (hwm s).
+      rewrite (hid_nil _ (doom x)) by (rewrite Forall_forall in Lo; auto). simpl.
+      rewrite hid_all by exact Lv2. rewrite <- (map_map snd S). now apply noninc_map_S.
+    + intros b' N. change (cur s') with (cur s) in N. rewrite G by (intros ->; auto). apply Kho. exact N.
+    + intros _. exists b. change (cur s') with (cur s). rewrite Gy. auto.
+    + rewrite Hu. intros H. now destruct H.
+    + change (hwm s') with (hwm s). change (q s' ++ rq s') with (q s ++ rq s). intros l1 i r l2 E Hr.
+      destruct (Kcu l1 i r l2 E Hr) as (c & Hc & W). exists c. split; auto. destruct W as [W|(b' & W)]; auto.
+      right. exists b'. destruct (Nat.eq_dec b' b) as [Eb|N]; [subst b'; rewrite Gy, Ei; exact W|now rewrite G].
+    + intros b' i r. change (hwm s') with (hwm s).
+      destruct (Nat.eq_dec b' b) as [Eb|N]; [subst b'; rewrite Gy|rewrite G by auto; apply Kcd].
+      intros _. rewrite S1, Ei. apply Kcd. exact Rx.
+    + intros b' i r. change (hwm s') with (hwm s).
+      destruct (Nat.eq_dec b' b) as [Eb|N]; [subst b'; rewrite Gy|rewrite G by auto; apply Kc2].
+      intros _. rewrite S2. unfold seg2. rewrite <- Ax. intros H. rewrite Forall_forall in Lv2. now apply Lv2 in H.
+    + intros b'. change (hwm s') with (hwm s).
+      destruct (Nat.eq_dec b' b) as [Eb|N]; [subst b'; rewrite Gy|rewrite G by auto; apply Ks1].
+      rewrite S1, Ei. apply Ks1.
+Qed.
+
+(* the answered set leaves the worker (success or failure of its messages); nothing is bounced *)
+Lemma inv2_resp_keep mx s b y l : Inv1 mx s -> Inv2 mx s -> b < length (bps s) ->
+  let x := get_bp s b in
+  inq y = inq x -> rf y = rf x -> cl y = cl x -> pre x = l ++ pre y ->
+  Inv2 mx (put_bp s b y).
+Proof.
+  intros I1 I2 Hb x Ei Erf Ecl Ep. pose proof I2 as I2'. dI2 I2'. dI1 I1.
+  assert (Ry : refusing y = refusing x) by (unfold refusing; now rewrite Erf, Ecl).
+  assert (S2 : seg2 y = seg2 x) by (unfold seg2; now rewrite Ei).
+  assert (Sd : sub (datas (seg1 y)) (datas (seg1 x))).
+  { unfold seg1. rewrite Ep, Ei, <- app_assoc, (datas_app l). apply sub_app_r. }
+  assert (Pr : refusing x = true -> seg1 y = seg1 x).
+  { intros R. unfold seg1. rewrite Ei. f_equal. pose proof (Hpref b R) as Z. fold x in Z. rewrite Z in Ep.
+    symmetry in Ep. apply app_eq_nil in Ep as [_ ->]. now rewrite Z. }
+  apply inv2_bp_shrink; auto; fold x.
+  - unfold acc. rewrite Ry, Ecl, S2. destruct (refusing x); [apply sub_refl|]. apply sub_app; [exact Sd|apply sub_refl].
+  - unfold doom. rewrite Ry, Ecl, S2. destruct (refusing x) eqn:R; auto. now rewrite Pr.
+  - unfold tail_doomed. now rewrite Ei, Ecl, Ry.
+  - now rewrite Ei.
+  - intros i r R. rewrite Ry in R. rewrite (Pr R), Ei. now apply Kcd.
+  - intros i r. rewrite Ecl, S2. apply Kc2.
+  - rewrite Ei. intros M. eapply Forall_sub; [exact Sd|]. now apply Ks1.
+  - rewrite Ei. intros H Ec. specialize (Khm H). unfold cur_bp in Khm. now rewrite Ec in Khm.
+Qed.
+
+Lemma bounce_app mx a b : bounce mx (a ++ b) = bounce mx a ++ bounce mx b.
+Proof. unfold bounce. apply flat_map_app. Qed.
+Lemma bounce_single mx m : bounce mx [m] = bounce1 mx m.
+Proof. unfold bounce. simpl. apply app_nil_r. Qed.
+
+Lemma inv2_resp mx s b addw : 1 <= mx -> Inv1 mx s -> Inv2 mx s -> Inv2 mx (bp_resp mx s b addw).
+Proof.
+  intros Hmx I1 I2. unfold bp_resp. set (x := get_bp s b).
+  destruct (snt x) as [[l [[v base]|]]|] eqn:Es; auto.
+  destruct (Nat.lt_ge_cases b (length (bps s))) as [Hb|Hb].
+  2:{ unfold x in Es. rewrite get_bp_default in Es by auto. discriminate. }
+  assert (Emx : (mx =? 0) = false) by (apply Nat.eqb_neq; lia). rewrite Emx.
+  assert (Px : pre x = l ++ buf x ++ wt_items x). { unfold pre, sent_items. now rewrite Es. }
+  assert (Hrx : refusing x = true -> pre x = []). { destruct I1. apply i_pre_ref. }
+  assert (Keep : forall y sc, inq y = inq x -> rf y = rf x -> cl y = cl x -> pre y = buf x ++ wt_items x ->
+                 Inv2 mx (put_bp (set_succ s sc) b y)).
+  { intros y sc E1 E2 E3 E4. change (Inv2 mx (set_succ (put_bp s b y) sc)). apply inv2_set_succ.
+    apply (inv2_resp_keep mx s b y l); auto. fold x. now rewrite Px, E4. }
+  assert (Keep0 : forall y, inq y = inq x -> rf y = rf x -> cl y = cl x -> pre y = buf x ++ wt_items x ->
+                 Inv2 mx (put_bp s b y)).
+  { intros y E1 E2 E3 E4. apply (inv2_resp_keep mx s b y l); auto. fold x. now rewrite Px, E4. }
+  assert (Fail : forall y, refusing x = false -> inq y = inq x -> pre y = [] ->
+                 ((rf y = true /\ cl y = false /\ pre x <> []) \/ cl y = true) ->
+                 forall s2, s2 = put_bp (set_rq s (rq s ++ bounce mx (pre x))) b y -> Inv2 mx s2).
+  { intros y R E1 E2 K s2 ->. apply inv2_fail_healthy; auto. }
+  destruct (wt x) as [w|] eqn:Ew.
+  - assert (Pw : pre x = l ++ buf x ++ [w]). { rewrite Px. unfold wt_items. now rewrite Ew. }
+    assert (Rx : refusing x = false). { destruct (refusing x) eqn:R; auto. rewrite Hrx in Pw by auto. destruct l, (buf x); discriminate. }
+    destruct (healthy_cl x Rx) as [Cl Rf].
+    assert (Wi : wt_items x = [w]) by (unfold wt_items; now rewrite Ew).
+    assert (Bq : (rq s ++ bounce mx (l ++ buf x)) ++ bounce1 mx w = rq s ++ bounce mx (pre x)).
+    { rewrite Pw, (app_assoc l), (bounce_app mx (l ++ buf x) [w]), bounce_single. now rewrite app_assoc. }
+    destruct v; [| |destruct l as [|m0 l]|]; unfold refusing;
+      cbn [with_snt with_rf with_cl with_buf with_wt with_ab rf cl wt buf ab snt inq]; rewrite ?Ew, ?Rf, ?Cl;
+      cbn [orb]; try (destruct addw); lazy beta iota zeta.
+    all: try (refine (Keep _ _ _ _ _ _); try reflexivity; rewrite Wi; unfold pre, sent_items, wt_items;
+              cbn [with_snt with_rf with_cl with_buf with_wt with_ab rf cl wt buf ab snt inq]; rewrite ?Ew; now rewrite ?app_nil_r, <- ?app_assoc).
+    all: try (refine (Keep0 _ _ _ _ _); try reflexivity; rewrite Wi; unfold pre, sent_items, wt_items;
+              cbn [with_snt with_rf with_cl with_buf with_wt with_ab rf cl wt buf ab snt inq]; rewrite ?Ew; now rewrite ?app_nil_r, <- ?app_assoc).
+    all: (match goal with |- Inv2 _ (set_bps _ (upd _ (fun _ => ?Y) _)) => apply (Fail Y Rx) end; try reflexivity).
+    all: try (rewrite <- Bq; reflexivity).
+    all: cbn [with_snt with_rf with_cl with_buf with_wt with_ab rf cl wt buf ab snt inq].
+    all: try (left; repeat split; auto; rewrite Pw; discriminate).
+    all: right; reflexivity.
+  - assert (Pn : pre x = l ++ buf x). { rewrite Px. unfold wt_items. rewrite Ew. now rewrite app_nil_r. }
+    assert (Wi : wt_items x = []) by (unfold wt_items; now rewrite Ew).
+    destruct v; [| |destruct l as [|m0 l]|]; unfold refusing;
+      cbn [with_snt with_rf with_cl with_buf with_wt with_ab rf cl wt buf ab snt inq]; rewrite ?Ew; lazy beta iota zeta.
+    all: try (refine (Keep _ _ _ _ _ _); try reflexivity; rewrite Wi; unfold pre, sent_items, wt_items;
+              cbn [with_snt with_rf with_cl with_buf with_wt with_ab rf cl wt buf ab snt inq]; rewrite ?Ew; now rewrite ?app_nil_r, <- ?app_assoc).
+    all: try (refine (Keep0 _ _ _ _ _); try reflexivity; rewrite Wi; unfold pre, sent_items, wt_items;
+              cbn [with_snt with_rf with_cl with_buf with_wt with_ab rf cl wt buf ab snt inq]; rewrite ?Ew; now rewrite ?app_nil_r, <- ?app_assoc).
+    + assert (Rx : refusing x = false). { destruct (refusing x) eqn:R; auto. rewrite Hrx in Pn by auto. discriminate. }
+      match goal with |- Inv2 _ (set_bps _ (upd _ (fun _ => ?Y) _)) => apply (Fail Y Rx) end; try reflexivity.
+      * unfold pre, sent_items, wt_items. cbn [with_snt with_rf with_cl with_buf with_wt with_ab rf cl wt buf ab snt inq]. now rewrite Ew.
+      * left. destruct (healthy_cl x Rx) as [Cl Rf]. repeat split; auto. rewrite Pn. discriminate.
+      * now rewrite Pn.
+    + destruct (refusing x) eqn:Rx.
+      * pose proof (Hrx eq_refl) as P0. rewrite P0 in Pn. symmetry in Pn. apply app_eq_nil in Pn as [-> Eb]. rewrite Eb. simpl.
+        match goal with |- Inv2 _ (set_bps _ (upd _ (fun _ => ?Y) _)) => change (Inv2 mx (put_bp (set_rq s (rq s ++ [])) b Y)) end.
+        rewrite put_bp_rq_nil.
+        destruct (cl x) eqn:Cx.
+        -- eapply inv2_ext; [| | | | |exact I2]; try reflexivity.
+           intros b'. apply beq_put; auto. fold x. repeat split; auto.
+           rewrite P0. unfold pre, sent_items, wt_items. cbn [with_snt with_rf with_cl with_buf with_wt with_ab rf cl wt buf ab snt inq]. now rewrite Ew.
+        -- apply inv2_close_rf; auto.
+      * match goal with |- Inv2 _ (set_bps _ (upd _ (fun _ => ?Y) _)) => apply (Fail Y eq_refl) end; try reflexivity.
+        -- unfold pre, sent_items, wt_items. cbn [with_snt with_rf with_cl with_buf with_wt with_ab rf cl wt buf ab snt inq]. now rewrite Ew.
+        -- now right.
+        -- now rewrite Pn.
+Qed.
+
+(* ---------------------------------------------------------------- partition-worker operations *)
+Lemma inv2_park mx s i r rest : q s = Data i r :: rest -> Inv2 mx s -> Inv2 mx (park_head s r (Data i r)).
+Proof.
+  intros E I. eapply inv2_up_dsub; [| | | | |exact I]; simpl; auto; try reflexivity.
+  - rewrite E. simpl. apply dsub_skip, dsub_refl.
+  - intros c. unfold pend. simpl. now rewrite chs_set_lbuf.
+Qed.
+
+(* a doomed message is in the first segment of a refusing worker or in the second segment of a closing one *)
+Lemma in_doom x i r : In (i, r) (doom x) ->
+  (refusing x = true /\ In (i, r) (datas (seg1 x))) \/ (cl x = true /\ In (i, r) (datas (seg2 x))).
+Proof.
+  unfold doom. intros H. apply in_app_or in H as [H|H].
+  - destruct (refusing x); [auto|destruct H].
+  - destruct (cl x); [auto|destruct H].
+Qed.
+
+(* the level just above h' has no chaser pending: nothing of that level is on its way back *)
+Lemma no_level_above mx s h' : Inv1 mx s -> Inv2 mx s -> hwm s = S h' -> ~ pend s (S h') ->
+  (forall i, ~ In (Data i (S h')) (q s ++ rq s)) /\ (forall b i, ~ In (i, h') (doom (get_bp s b))) /\
+  (forall b i, has_m (inq (get_bp s b)) = true -> ~ In (i, h') (datas (seg1 (get_bp s b)))).
+Proof.
+  intros I1 I2 Eh Np. dI2 I2. dI1 I1.
+  assert (Nc : forall v c, S h' <= v -> covers s v c -> False).
+  { intros v c Hv (A & B & _). pose proof (Hchs c B). assert (c = S h') by lia. subst. auto. }
+  assert (D1 : forall b i, refusing (get_bp s b) = true -> ~ In (i, h') (datas (seg1 (get_bp s b)))).
+  { intros b i R H. destruct (Kcd b i h' R H) as (c & Y & Hc & _); [lia|]. eapply Nc; [|exact Hc]. lia. }
+  repeat split.
+  - intros i H. apply in_split in H as (l1 & l2 & E). destruct (Kcu l1 i (S h') l2 E) as (c & Hc & _); [lia|].
+    eapply Nc; [|exact Hc]. lia.
+  - intros b i H. apply in_doom in H as [[R H]|[C H]].
+    + eapply D1; eauto.
+    + apply Kc2 in H; auto. lia.
+  - intros b i M H. destruct (refusing (get_bp s b)) eqn:R.
+    + eapply D1; eauto.
+    + rewrite (Hmarked b M R) in H. destruct H.
+Qed.
+
+Lemma inv2_lower mx s h' : Inv1 mx s -> Inv2 mx s -> hwm s = S h' -> ~ pend s (S h') -> Inv2 mx (lower s h').
+Proof.
+  intros I1 I2 Eh Np. destruct (no_level_above mx s h' I1 I2 Eh Np) as (N1 & N2 & N3). dI2 I2.
+  assert (Pe : forall c, pend (lower s h') c <-> pend s c). { intros c. unfold pend, lower. simpl. now rewrite chs_set_lbuf. }
+  assert (Cv : forall v c, covers (lower s h') v c <-> covers s v c).
+  { intros v c. unfold covers. rewrite Pe. split; intros (A & B' & C); repeat split; auto; intros c' H1 H2 H3; apply (C c' H1 H2); now apply Pe. }
+  assert (Hu : hi_up (lower s h') = hi_up s).
+  { rewrite !hi_up_eq. change (hwm (lower s h')) with h'. change (q (lower s h') ++ rq (lower s h')) with (q s ++ rq s). rewrite Eh.
+    unfold hiu. f_equal. apply filter_ext_in. intros m Hm.
+    destruct (Nat.ltb_spec h' (retries_of m)), (Nat.ltb_spec (S h') (retries_of m)); auto; try (exfalso; lia).
+    exfalso. assert (retries_of m = S h') by lia.
+    destruct m as [i r|r|]; simpl in *; try lia.
+    + subst. eapply N1; eauto.
+    + subst. destruct I1. apply i_tok_up in Hm. auto. }
+  assert (Hdb : forall b, hid h' (doom (get_bp s b)) = hid (S h') (doom (get_bp s b))).
+  { intros b. unfold hid. f_equal. apply filter_ext_in. intros [i r] Hm. cbn [snd].
+    destruct (Nat.leb_spec h' r), (Nat.leb_spec (S h') r); auto; try (exfalso; lia).
+    exfalso. assert (r = h') by lia. subst. eapply N2; eauto. }
+  assert (Hd : hi_doom (lower s h') = hi_doom s).
+  { rewrite !hi_doom_eq. change (hwm (lower s h')) with h'. rewrite Eh. change (cur_bp (lower s h')) with (cur_bp s).
+    unfold cur_bp. destruct (cur s); [apply Hdb|reflexivity]. }
+  constructor.
+  - exact Kacc.
+  - change (cur_bp (lower s h')) with (cur_bp s). change (hwm (lower s h')) with h'. destruct Klvls as [K1 K2]. split; auto.
+    eapply Forall_impl; [|exact K2]. simpl. intros; lia.
+  - unfold hi_seq. now rewrite Hu, Hd.
+  - intros b N. change (hwm (lower s h')) with h'. specialize (Kho b N). rewrite Forall_forall in *. intros [i r] H.
+    pose proof (Kho _ H) as Z. simpl in *. assert (r <> h') by (intros ->; eapply N2; eauto). lia.
+  - unfold hi_seq. rewrite Hu, Hd. exact Kht.
+  - rewrite Hu. exact Khm.
+  - change (hwm (lower s h')) with h'. intros l1 i r l2 E Hr. destruct (Kcu l1 i r l2 E) as (c & Hc & W); [lia|].
+    exists c. split; auto. now apply Cv.
+  - change (hwm (lower s h')) with h'. intros b i r R H Hr. destruct (Kcd b i r R H) as (c & Y & Hc & E); [lia|].
+    exists c, Y. split; auto. now apply Cv.
+  - change (hwm (lower s h')) with h'. intros b i r C H. apply Kc2 in H; auto. lia.
+  - change (hwm (lower s h')) with h'. intros b M. specialize (Ks1 b M). rewrite Forall_forall in *. intros [i r] H.
+    pose proof (Ks1 _ H) as Z. simpl in *. assert (r <> h') by (intros ->; eapply N3; eauto). lia.
+Qed.
+
+Lemma hiu_cons h m l : hiu h (m :: l) = (if h <? retries_of m then [retries_of m] else []) ++ hiu h l.
+Proof. unfold hiu. simpl. destruct (h <? retries_of m); reflexivity. Qed.
+
+(* a fin read by the partition worker: its level is no longer pending *)
+Lemma inv2_fin mx s c rest : Inv1 mx s -> Inv2 mx s -> q s = Fin c :: rest -> Inv2 mx (fin_seen (pop s) c).
+Proof.
+  intros I1 I2 E. dI2 I2. dI1 I1. set (s' := fin_seen (pop s) c).
+  assert (Pc : pend s c) by (apply Htup; rewrite E; now left).
+  assert (Hc1 : 1 <= c <= hwm s) by now apply Hchs.
+  assert (Lc : c < length (lv s)) by lia.
+  assert (Pe : forall c', pend s' c' <-> c' <> c /\ pend s c').
+  { intros c'. unfold pend, s'. simpl. rewrite chs_set_chs by auto. destruct (Nat.eqb_spec c' c); intuition congruence. }
+  assert (Cv : forall v c0, c0 <> c -> covers s v c0 -> covers s' v c0).
+  { intros v c0 N (A & B & C). repeat split; auto. apply Pe; auto. intros c' H1 H2 H3. apply Pe in H3 as [_ H3]. eapply C; eauto. }
+  assert (Nin : forall b', ~ In (Fin (c - 1)) (inq (get_bp s b'))).
+  { intros b'. destruct c as [|c0]; [lia|]. replace (S c0 - 1) with c0 by lia. apply Hu3. rewrite E. now left. }
+  assert (Up : q s ++ rq s = Fin c :: (q s' ++ rq s')). { unfold s'. simpl. now rewrite E. }
+  assert (Nup : ~ In (Fin c) (q s' ++ rq s')).
+  { rewrite Up in Hu1. simpl in Hu1. inversion Hu1; subst. intros H. apply H1. now apply in_fins. }
+  assert (Hu : hi_up s' = hi_up s).
+  { rewrite !hi_up_eq, Up. change (hwm s') with (hwm s). rewrite hiu_cons. simpl retries_of. assert ((hwm s <? c) = false) as -> by (apply Nat.ltb_ge; lia). reflexivity. }
+  constructor.
+  - exact Kacc.
+  - exact Klvls.
+  - unfold hi_seq. rewrite Hu. exact Khs.
+  - exact Kho.
+  - unfold hi_seq. rewrite Hu. exact Kht.
+  - rewrite Hu. exact Khm.
+  - change (hwm s') with (hwm s). intros l1 i r l2 E1 Hr.
+    destruct (Kcu (Fin c :: l1) i r l2) as (c0 & Hc0 & W); [rewrite Up, E1; reflexivity|exact Hr|].
+    assert (c0 <> c).
+    { intros ->. destruct W as [W|(b' & W)]; [|eapply Nin; eauto]. apply Nup. rewrite E1. apply in_or_app. right. now right. }
+    exists c0. split; [now apply Cv|exact W].
+  - change (hwm s') with (hwm s). intros b i r R H Hr. destruct (Kcd b i r R H Hr) as (c0 & Y & Hc0 & EY).
+    assert (c0 <> c). { intros ->. apply (Nin b). change (get_bp s' b) with (get_bp s b) in EY. rewrite EY. apply in_or_app. right. now left. }
+    exists c0, Y. split; [now apply Cv|exact EY].
+  - exact Kc2.
+  - exact Ks1.
+Qed.
+
+Lemma pre_m_nomark_app l ds : nomark ds -> has_m l = false -> pre_m (l ++ ds) = l ++ ds.
+Proof. intros N H. apply pre_m_nomark. apply nomark_app. split; auto. now apply nomark_has_m. Qed.
+
+Lemma hid_const h d : Forall (fun z => snd z = h) d -> hid h d = map (fun _ => S h) d.
+Proof.
+  induction 1; auto. rewrite hid_cons, H, Nat.leb_refl. simpl. now rewrite IHForall.
+Qed.
+
+(* the partition worker sends messages of the current level to its worker *)
+Lemma inv2_push_data mx s b ds : Inv1 mx s -> Inv2 mx s -> cur s = Some b -> nomark ds ->
+  Forall (fun z => snd z = hwm s) (datas ds) -> Inv2 mx (push_inq s b ds).
+Proof.
+  intros I1 I2 Ec Nd Lv. pose proof I2 as I2'. dI2 I2'. dI1 I1.
+  assert (Hb : b < length (bps s)) by auto.
+  rewrite push_is_put. set (x := get_bp s b). set (y := with_inq x (inq x ++ ds)). set (s' := put_bp s b y).
+  destruct (acc_push_data x ds Nd) as [Ay Dy]. fold y in Ay, Dy.
+  assert (Cx : cur_bp s = x) by (unfold cur_bp; now rewrite Ec).
+  assert (G : forall b', b' <> b -> get_bp s' b' = get_bp s b') by (intros; now apply get_bp_put_other).
+  assert (Gy : get_bp s' b = y) by now apply get_bp_put_same.
+  assert (Cb : cur_bp s' = y). { unfold s'. rewrite cur_bp_put by auto. now rewrite Ec, Nat.eqb_refl. }
+  assert (Hm : has_m (inq y) = has_m (inq x)).
+  { unfold y. simpl. rewrite has_m_app. apply nomark_has_m in Nd. rewrite Nd. apply orb_false_r. }
+  assert (Ty : tail_doomed y = tail_doomed x) by (unfold tail_doomed; now rewrite Hm).
+  assert (Fy : forall c, In (Fin c) (inq x) -> In (Fin c) (inq y)) by (intros; unfold y; simpl; apply in_or_app; now left).
+  assert (S1m : has_m (inq x) = true -> seg1 y = seg1 x /\ seg2 y = seg2 x ++ ds).
+  { intros M. unfold seg1, seg2, y. simpl. change (pre (with_inq x (inq x ++ ds))) with (pre x).
+    now rewrite pre_m_app_marked, post_m_app_marked. }
+  assert (S1n : has_m (inq x) = false -> seg1 y = seg1 x ++ ds /\ seg2 y = []).
+  { intros M. unfold seg1, seg2, y. simpl. change (pre (with_inq x (inq x ++ ds))) with (pre x).
+    apply nomark_has_m in M. rewrite pre_m_app_nomark, (pre_m_nomark _ M), (pre_m_nomark _ Nd), post_m_app_nomark, (post_m_nomark _ Nd) by auto.
+    now rewrite app_assoc. }
+  assert (Hup : hi_up s' = hi_up s) by reflexivity.
+  assert (Gt : forall v, In v (hi_seq s) -> S (hwm s) <= v).
+  { intros v H. unfold hi_seq in H. apply in_app_or in H as [H|H].
+    - apply in_hiu in H as (m & _ & <- & H). lia.
+    - rewrite hi_doom_eq in H. apply in_hid in H as (z & _ & <- & H). lia. }
+  assert (Hds : hid (hwm s) (datas ds) = map (fun _ => S (hwm s)) (datas ds)) by now apply hid_const.
+  assert (Old : forall i r, refusing y = true -> In (i, r) (datas (seg1 y)) -> r < hwm s ->
+     exists c Y, covers s (S r) c /\ inq y = pre_m (inq y) ++ Fin (c - 1) :: Y).
+  { intros i r R H Hr. change (refusing y) with (refusing x) in R. destruct (has_m (inq x)) eqn:M.
+    - destruct (S1m eq_refl) as [E1 _]. rewrite E1 in H. destruct (Kcd b i r R H Hr) as (c & Y & Hc & E). fold x in E.
+      exists c, (Y ++ ds). split; auto. unfold y. simpl. rewrite pre_m_app_marked by auto. rewrite E at 1. now rewrite <- app_assoc.
+    - destruct (S1n eq_refl) as [E1 _]. rewrite E1, datas_app in H. apply in_app_or in H as [H|H].
+      + exfalso. destruct (Kcd b i r R H Hr) as (c & Y & _ & E). fold x in E. apply nomark_has_m in M.
+        apply (nomark_not_in (inq x) (Fin (c - 1))); auto. rewrite E. apply in_or_app. right. now left.
+      + exfalso. rewrite Forall_forall in Lv. apply Lv in H. simpl in H. lia. }
+  constructor.
+  - intros b'. destruct (Nat.eq_dec b' b) as [Eb|N]; [subst b'; auto|rewrite G by auto; apply Kacc].
+  - rewrite Cb. change (hwm s') with (hwm s). rewrite Ay. rewrite Cx in Klvls. destruct Klvls as [K1 K2].
+    destruct (tail_doomed x); rewrite ?app_nil_r; auto. split.
+    + rewrite map_app. apply noninc_app. repeat split; auto.
+      * clear -Lv. induction Lv; simpl; constructor; auto. rewrite Forall_forall. intros v Hv. apply in_map_iff in Hv as (z & <- & Hz).
+        rewrite Forall_forall in Lv. rewrite (Lv _ Hz), H. lia.
+      * intros a c Ha Hc. apply in_map_iff in Ha as (z & <- & Hz). apply in_map_iff in Hc as (z' & <- & Hz').
+        rewrite Forall_forall in K2, Lv. rewrite (Lv _ Hz'). apply K2 in Hz. lia.
+    + apply Forall_app. split; auto. eapply Forall_impl; [|exact Lv]. simpl. intros; lia.
+  - unfold hi_seq. rewrite Hup, hi_doom_eq, Cb, Dy. change (hwm s') with (hwm s). rewrite hid_app, app_assoc.
+    assert (Hd0 : hi_doom s = hid (hwm s) (doom x)) by (rewrite hi_doom_eq, Cx; reflexivity).
+    rewrite <- Hd0. fold (hi_seq s). destruct (tail_doomed x); [|simpl; now rewrite app_nil_r].
+    rewrite Hds. apply noninc_app. repeat split; auto.
+    + clear. induction (datas ds); simpl; constructor; auto. rewrite Forall_forall. intros v Hv. apply in_map_iff in Hv as (_ & <- & _). lia.
+    + intros a c Ha Hc. apply in_map_iff in Hc as (_ & <- & _). apply Gt in Ha. lia.
+  - intros b' N. change (cur s') with (cur s) in N. rewrite G by (intros ->; auto). apply Kho. exact N.
+  - intros H. exists b. change (cur s') with (cur s). split; auto. rewrite Gy, Ty.
+    destruct (tail_doomed x) eqn:T; auto. exfalso.
+    assert (Z : hi_seq s' = hi_seq s).
+    { unfold hi_seq. rewrite Hup, !hi_doom_eq, Cb, Dy, Cx, ?T. change (hwm s') with (hwm s). now rewrite app_nil_r. }
+    rewrite Z in H. destruct (Kht H) as (b'' & E1 & E2). rewrite Ec in E1. injection E1 as <-. fold x in E2. congruence.
+  - rewrite Hup, Cb, Hm. intros H. specialize (Khm H). now rewrite Cx in Khm.
+  - change (hwm s') with (hwm s). change (q s' ++ rq s') with (q s ++ rq s). intros l1 i r l2 E Hr.
+    destruct (Kcu l1 i r l2 E Hr) as (c & Hc & W). exists c. split; auto. destruct W as [W|(b' & W)]; auto.
+    right. exists b'. destruct (Nat.eq_dec b' b) as [Eb|N]; [subst b'; rewrite Gy; now apply Fy|now rewrite G].
+  - intros b' i r. change (hwm s') with (hwm s).
+    destruct (Nat.eq_dec b' b) as [Eb|N]; [subst b'; rewrite Gy; apply Old|rewrite G by auto; apply Kcd].
+  - intros b' i r. change (hwm s') with (hwm s).
+    destruct (Nat.eq_dec b' b) as [Eb|N]; [subst b'; rewrite Gy|rewrite G by auto; apply Kc2].
+    change (cl y) with (cl x). intros C H. destruct (has_m (inq x)) eqn:M.
+    + destruct (S1m eq_refl) as [_ E2]. rewrite E2, datas_app in H. apply in_app_or in H as [H|H]; [apply (Kc2 b i r); auto|].
+      rewrite Forall_forall in Lv. apply Lv in H. simpl in H. lia.
+    + destruct (S1n eq_refl) as [_ E2]. rewrite E2 in H. destruct H.
+  - intros b'. change (hwm s') with (hwm s).
+    destruct (Nat.eq_dec b' b) as [Eb|N]; [subst b'; rewrite Gy|rewrite G by auto; apply Ks1].
+    rewrite Hm. intros M. destruct (S1m M) as [E1 _]. rewrite E1. now apply Ks1.
+Qed.
+
+Lemma pre_m_snoc_marker l m : is_marker m = true -> pre_m (l ++ [m]) = pre_m l.
+Proof. intros H. induction l as [|x l IH]; simpl; [now rewrite H|]. destruct (is_marker x); auto. now rewrite IH. Qed.
+
+(* updateLeader succeeded *)
+Lemma inv2_pickbp mx s b0 : Inv1 mx s -> Inv2 mx s -> cur s = None -> Inv2 mx (pickbp s b0).
+Proof.
+  intros I1 I2 Ec. unfold pickbp. destruct (pick s b0) as [s1 b'] eqn:Ep.
+  destruct (pick_spec _ _ _ _ Ep) as (G0 & Hb' & Hlen1 & Hcl & Hab' & Eq & Erq & Eh & Elv & Ecur & _ & _ & Enx & _ & _).
+  dI2 I2. dI1 I1. set (s' := set_cur (push_inq s1 b' [Syn]) (Some b')). set (x := get_bp s b').
+  set (y := with_inq x (inq x ++ [Syn])).
+  assert (Gb : forall b, get_bp s' b = if b =? b' then y else get_bp s b).
+  { intros b. change (get_bp (push_inq s1 b' [Syn]) b = if b =? b' then y else get_bp s b).
+    rewrite get_bp_push, !G0. apply Nat.ltb_lt in Hb'. now rewrite Hb', andb_true_r. }
+  assert (Gy : get_bp s' b' = y) by (rewrite Gb; now rewrite Nat.eqb_refl).
+  assert (G : forall b, b <> b' -> get_bp s' b = get_bp s b) by (intros b N; rewrite Gb; apply Nat.eqb_neq in N; now rewrite N).
+  destruct (acc_push_marker x Syn eq_refl) as [Ay Dy]. fold y in Ay, Dy.
+  assert (An : forall b, acc (get_bp s b) = []).
+  { intros b. destruct (acc (get_bp s b)) eqn:E; auto. exfalso. assert (cur s = Some b) by (apply Kacc; rewrite E; discriminate). congruence. }
+  assert (Hs0 : hi_seq s = []).
+  { destruct (hi_seq s) eqn:E; auto. exfalso. destruct Kht as (b & E1 & _); [try rewrite E; discriminate|]. congruence. }
+  assert (Nc : cur s <> Some b') by (rewrite Ec; discriminate).
+  assert (Lo : Forall (fun z => snd z < hwm s) (doom x)) by (apply Kho; exact Nc).
+  assert (Hu : hi_up s' = []).
+  { unfold hi_seq in Hs0. apply app_eq_nil in Hs0 as [H _]. rewrite hi_up_eq in *. change (hwm s') with (hwm s1). change (q s' ++ rq s') with (q s1 ++ rq s1).
+    now rewrite Eh, Eq, Erq. }
+  assert (Cb : cur_bp s' = y) by (unfold cur_bp; simpl; exact Gy).
+  assert (Hd : hi_doom s' = []).
+  { rewrite hi_doom_eq, Cb, Dy. change (hwm s') with (hwm s1). rewrite Eh. apply hid_nil. intros z Hz. rewrite Forall_forall in Lo. auto. }
+  assert (Pe : forall c, pend s' c <-> pend s c) by (intros c; unfold pend; simpl; now rewrite Elv).
+  assert (Cv : forall v c, covers s' v c <-> covers s v c).
+  { intros v c. unfold covers. rewrite Pe. split; intros (A & B' & C); repeat split; auto; intros c' H1 H2 H3; apply (C c' H1 H2); now apply Pe. }
+  assert (S1 : seg1 y = seg1 x).
+  { unfold seg1, y. simpl. change (pre (with_inq x (inq x ++ [Syn]))) with (pre x). now rewrite pre_m_snoc_marker. }
+  constructor.
+  - intros b. destruct (Nat.eq_dec b b') as [Eb|N]; [subst b; reflexivity|rewrite G by auto; rewrite An; now intros []].
+  - rewrite Cb, Ay. unfold x. rewrite An. split; constructor.
+  - unfold hi_seq. rewrite Hu, Hd. constructor.
+  - intros b N. change (cur s') with (Some b') in N. change (hwm s') with (hwm s1). rewrite Eh. rewrite G by congruence. apply Kho. congruence.
+  - unfold hi_seq. rewrite Hu, Hd. now intros [].
+  - rewrite Hu. now intros [].
+  - change (hwm s') with (hwm s1). change (q s' ++ rq s') with (q s1 ++ rq s1). rewrite Eh, Eq, Erq. intros l1 i r l2 E Hr.
+    destruct (Kcu l1 i r l2 E Hr) as (c & Hc & W). exists c. split; [now apply Cv|]. destruct W as [W|(b & W)]; auto.
+    right. exists b. destruct (Nat.eq_dec b b') as [Eb|N]; [subst b; rewrite Gy; unfold y; simpl; apply in_or_app; now left|now rewrite G].
+  - intros b i r. change (hwm s') with (hwm s1). rewrite Eh.
+    destruct (Nat.eq_dec b b') as [Eb|N]; [subst b; rewrite Gy|rewrite G by auto; intros R H Hr; destruct (Kcd b i r R H Hr) as (c & Y & Hc & E); exists c, Y; split; auto; now apply Cv].
+    change (refusing y) with (refusing x). rewrite S1. intros R H Hr. destruct (Kcd b' i r R H Hr) as (c & Y & Hc & E). fold x in E.
+    exists c, (Y ++ [Syn]). split; [now apply Cv|]. unfold y. simpl. rewrite pre_m_snoc_marker by auto. rewrite E at 1. now rewrite <- app_assoc.
+  - intros b i r. change (hwm s') with (hwm s1). rewrite Eh.
+    destruct (Nat.eq_dec b b') as [Eb|N]; [subst b; rewrite Gy|rewrite G by auto; apply Kc2].
+    change (cl y) with (cl x). unfold x. rewrite Hcl. discriminate.
+  - intros b. change (hwm s') with (hwm s1). rewrite Eh.
+    destruct (Nat.eq_dec b b') as [Eb|N]; [subst b; rewrite Gy|rewrite G by auto; apply Ks1].
+    intros _. rewrite S1. destruct (refusing x) eqn:R.
+    + eapply Forall_sub; [|exact Lo]. unfold doom. rewrite R. apply sub_app_l.
+    + destruct (acc_doom_healthy x R) as [A _]. unfold x in A at 1. rewrite (An b') in A. unfold seg1. rewrite datas_app.
+      symmetry in A. rewrite datas_app in A. apply app_eq_nil in A as [A1 A2]. rewrite A1. simpl.
+      eapply Forall_sub; [apply sub_datas_pre_m|]. rewrite A2. constructor.
+Qed.
+
+(* what is known when a message above the watermark reaches the partition worker *)
+Lemma mark_pre mx s m rest : Inv2 mx s -> q s = m :: rest -> hwm s < retries_of m ->
+  exists b, cur s = Some b /\ tail_doomed (get_bp s b) = true /\ nomark (inq (get_bp s b)) /\
+            refusing (get_bp s b) = true /\ acc (get_bp s b) = [] /\
+            (forall v, In v (hi_seq s) -> v <= retries_of m).
+Proof.
+  intros I E Hr. dI2 I.
+  assert (Hu : hi_up s = retries_of m :: hiu (hwm s) (rest ++ rq s)).
+  { rewrite hi_up_eq, E. simpl app. rewrite hiu_cons. apply Nat.ltb_lt in Hr. now rewrite Hr. }
+  assert (Hne : hi_seq s <> []) by (unfold hi_seq; rewrite Hu; discriminate).
+  destruct (Kht Hne) as (b & Ec & T). exists b.
+  assert (M : has_m (inq (get_bp s b)) = false).
+  { assert (H : hi_up s <> []) by (rewrite Hu; discriminate). specialize (Khm H). unfold cur_bp in Khm. now rewrite Ec in Khm. }
+  assert (R : refusing (get_bp s b) = true) by (unfold tail_doomed in T; now rewrite M in T).
+  repeat split; auto.
+  - now apply nomark_has_m.
+  - now apply tail_doomed_acc_nil.
+  - intros v H. unfold hi_seq in Khs, H. rewrite Hu in Khs, H. simpl in Khs, H. inversion Khs; subst. destruct H as [<-|H]; auto.
+    rewrite Forall_forall in H3. apply H3 in H. lia.
+Qed.
+
+Lemma inv2_mark mx s m rest b : Inv1 mx s -> Inv2 mx s -> q s = m :: rest -> hwm s < retries_of m ->
+  cur s = Some b -> Inv2 mx (mark s b (retries_of m)).
+Proof.
+  intros I1 I2 E Hr Ec. destruct (mark_pre mx s m rest I2 E Hr) as (b0 & Ec0 & T & Nm & R & A0 & Hi).
+  rewrite Ec in Ec0. injection Ec0 as <-. set (r := retries_of m) in *.
+  dI2 I2. dI1 I1. set (s' := mark s b r). set (x := get_bp s b) in *. set (y := with_inq x (inq x ++ [Fin (r - 1)])).
+  assert (Hb : b < length (bps s)) by auto.
+  assert (Lr : r < length (lv s)).
+  { assert (okitem mx (nxt s) m). { rewrite Forall_forall in Hokq. apply Hokq. rewrite E. now left. }
+    destruct m; simpl in *; unfold r; simpl; lia. }
+  assert (Gb : forall b', get_bp s' b' = if b' =? b then y else get_bp s b').
+  { intros b'. change (get_bp (push_inq s b [Fin (r-1)]) b' = if b' =? b then y else get_bp s b').
+    rewrite get_bp_push. apply Nat.ltb_lt in Hb. now rewrite Hb, andb_true_r. }
+  assert (Gy : get_bp s' b = y) by (rewrite Gb; now rewrite Nat.eqb_refl).
+  assert (G : forall b', b' <> b -> get_bp s' b' = get_bp s b') by (intros b' N; rewrite Gb; apply Nat.eqb_neq in N; now rewrite N).
+  destruct (acc_push_marker x (Fin (r - 1)) eq_refl) as [Ay Dy]. fold y in Ay, Dy.
+  assert (Pe : forall c, pend s' c <-> c = r \/ pend s c).
+  { intros c. unfold pend, s', mark. simpl. rewrite chs_set_chs by auto. destruct (Nat.eqb_spec c r); intuition congruence. }
+  assert (Np : forall c, hwm s < c -> ~ pend s c). { intros c Hc P. apply Hchs in P. lia. }
+  assert (Cv1 : forall v c, covers s v c -> covers s' v c).
+  { intros v c (A & B & C). assert (c <= hwm s) by (apply Hchs in B; lia). repeat split; auto. apply Pe; auto.
+    intros c' H1 H2 H3. apply Pe in H3 as [->|H3]; [lia|]. eapply C; eauto. }
+  assert (Cv2 : forall v, hwm s < v -> v <= r -> covers s' v r).
+  { intros v H1 H2. repeat split; auto. apply Pe; auto. intros c' H3 H4 H5. apply Pe in H5 as [->|H5]; [lia|]. apply (Np c'); auto. lia. }
+  assert (Dlt : forall b' i rho, In (i, rho) (doom (get_bp s b')) -> rho < r).
+  { intros b' i rho H. destruct (Nat.eq_dec b' b) as [->|N].
+    - destruct (Nat.lt_ge_cases rho (hwm s)); [lia|]. assert (S rho <= r); [|lia]. apply Hi. unfold hi_seq. apply in_or_app. right.
+      rewrite hi_doom_eq. unfold cur_bp. rewrite Ec. apply in_hid. exists (i, rho). auto.
+    - assert (cur s <> Some b') by congruence. specialize (Kho b' H0). rewrite Forall_forall in Kho. apply Kho in H. simpl in H. lia. }
+  assert (Hu : hi_up s' = []).
+  { rewrite hi_up_eq. change (hwm s') with r. change (q s' ++ rq s') with (q s ++ rq s). apply hiu_nil. intros m0 Hm.
+    destruct (Nat.lt_ge_cases (hwm s) (retries_of m0)); [|lia]. apply Hi. unfold hi_seq. apply in_or_app. left. rewrite hi_up_eq.
+    apply in_hiu. eauto. }
+  assert (Hd : hi_doom s' = []) by reflexivity.
+  assert (S1y : seg1 y = seg1 x).
+  { unfold seg1, y. simpl. change (pre (with_inq x (inq x ++ [Fin (r - 1)]))) with (pre x). now rewrite pre_m_snoc_marker. }
+  assert (Xs1 : datas (seg1 x) = doom x).
+  { unfold doom. rewrite R. unfold seg1, seg2. rewrite (post_m_nomark _ Nm). simpl. destruct (cl x); now rewrite app_nil_r. }
+  constructor.
+  - intros b'. destruct (Nat.eq_dec b' b) as [Eb|N]; [subst b'; rewrite Gy, Ay; fold x; rewrite A0; now intros []|].
+    rewrite G by auto. intros H. apply Kacc in H. congruence.
+  - change (cur_bp s') with bpw0. split; constructor.
+  - unfold hi_seq. rewrite Hu, Hd. constructor.
+  - intros b' _. change (hwm s') with r. rewrite Forall_forall. intros [i rho] H. simpl.
+    destruct (Nat.eq_dec b' b) as [Eb|N]; [subst b'; rewrite Gy, Dy in H|rewrite G in H by auto]; eapply Dlt; eauto.
+  - unfold hi_seq. rewrite Hu, Hd. now intros [].
+  - rewrite Hu. now intros [].
+  - change (hwm s') with r. change (q s' ++ rq s') with (q s ++ rq s). intros l1 i rho l2 E1 Hrho.
+    destruct (Nat.le_gt_cases rho (hwm s)) as [Hlo|Hhi].
+    + destruct (Kcu l1 i rho l2 E1) as (c & Hc & W); [lia|]. exists c. split; [now apply Cv1|].
+      destruct W as [W|(b' & W)]; auto. right. exists b'.
+      destruct (Nat.eq_dec b' b) as [Eb|N]; [subst b'; rewrite Gy; unfold y; simpl; apply in_or_app; now left|now rewrite G].
+    + exists r. split; [apply Cv2; lia|]. right. exists b. rewrite Gy. unfold y. simpl. apply in_or_app. right. now left.
+  - intros b' i rho. change (hwm s') with r.
+    destruct (Nat.eq_dec b' b) as [Eb|N]; [subst b'; rewrite Gy|rewrite G by auto].
+    + intros _ H _. rewrite S1y, Xs1 in H. pose proof (Dlt b i rho H) as Z.
+      destruct (Nat.lt_ge_cases rho (hwm s)) as [Hlo|Hhi].
+      * exfalso. rewrite <- Xs1 in H. destruct (Kcd b i rho R H Hlo) as (c & Y & _ & EY). fold x in EY.
+        apply (nomark_not_in (inq x) (Fin (c - 1))); auto. rewrite EY. apply in_or_app. right. now left.
+      * exists r, []. split; [apply Cv2; lia|]. unfold y. simpl. rewrite pre_m_snoc_marker, (pre_m_nomark _ Nm) by auto. reflexivity.
+    + intros R' H Hrho. assert (Hlo : rho < hwm s).
+      { assert (cur s <> Some b') by congruence. specialize (Kho b' H0). rewrite Forall_forall in Kho.
+        assert (In (i, rho) (doom (get_bp s b'))) by (unfold doom; rewrite R'; apply in_or_app; now left). apply Kho in H1. exact H1. }
+      destruct (Kcd b' i rho R' H Hlo) as (c & Y & Hc & EY). exists c, Y. split; auto.
+  - intros b' i rho. change (hwm s') with r.
+    destruct (Nat.eq_dec b' b) as [Eb|N]; [subst b'; rewrite Gy|rewrite G by auto].
+    + intros _. unfold seg2, y. simpl. rewrite post_m_app_nomark by auto. simpl. now intros [].
+    + intros _. assert (cur s <> Some b') by congruence. destruct (Hnoncur b' H) as [P _]. unfold seg2. rewrite P. now intros [].
+  - intros b'. change (hwm s') with r.
+    destruct (Nat.eq_dec b' b) as [Eb|N]; [subst b'; rewrite Gy|rewrite G by auto].
+    + intros _. rewrite S1y, Xs1. rewrite Forall_forall. intros [i rho] H. simpl. eapply Dlt; eauto.
+    + intros M. specialize (Ks1 b' M). eapply Forall_impl; [|exact Ks1]. simpl. intros; lia.
+Qed.
